@@ -249,6 +249,12 @@ func (c *localCache) ReadCh(ctx context.Context, name string, opts *Opts, paths 
 				if e == nil {
 					continue //
 				}
+				// The config and state stores are read by the raw prefix of the comma joined path elements,
+				// so reading "interface,eth1" also yields "interface,eth10" or a sibling "interface,eth1x".
+				// Only forward entries that are at or below one of the requested paths.
+				if (opts.Store == cachepb.Store_CONFIG || opts.Store == cachepb.Store_STATE) && !isBelowAnyPath(e.P, paths) {
+					continue
+				}
 				// do not block forever if the consumer stopped reading
 				select {
 				case <-ctx.Done():
@@ -265,6 +271,27 @@ func (c *localCache) ReadCh(ctx context.Context, name string, opts *Opts, paths 
 		}
 	}()
 	return outCh
+}
+
+// isBelowAnyPath returns true if p equals or is a descendant of one of the given paths,
+// comparing whole path elements. A "*" element matches any element.
+func isBelowAnyPath(p []string, paths [][]string) bool {
+	for _, prefix := range paths {
+		if len(prefix) > len(p) {
+			continue
+		}
+		match := true
+		for i, elem := range prefix {
+			if elem != p[i] && elem != "*" {
+				match = false
+				break
+			}
+		}
+		if match {
+			return true
+		}
+	}
+	return false
 }
 
 func (c *localCache) GetChanges(ctx context.Context, name, candidate string) ([]*Change, error) {
